@@ -206,7 +206,8 @@ def rule_cnt(ctx, M, u, rule):
               path=[sp for _, sp in loose])
     # completion returns guarded by the counter test
     kinds = ("Ready(Ok)",) if u.family == "try_join" else ("Ready",)
-    guard = flow.edges_where(bi, ft, "Eq", target)
+    # an up-counter is bounded by the number of children (starts at 0, +1 exactly once per child - checked above)
+    guard = flow.edges_where(bi, ft, "Eq", target, bounded=delta > 0)
     rets = flow.returns_of(bi, *kinds)
     for b, kind, payload, t in rets:
         ctx.check(bool(guard) and bi.guarded_by(b, guard), rule, u.where, "completion is returned only when %s" % tdesc, site=bi.describe(b))
@@ -215,7 +216,7 @@ def rule_cnt(ctx, M, u, rule):
     # same poll: after a child completes, the counter test is evaluated before any Pending return
     tests = [e["block"] for e, o, x, y in flow.compare_tests(bi) if (x == ft and target(y)) or (y == ft and target(x))]
     pend = common.pending_blocks(bi)
-    not_done = flow.edges_where(bi, ft, "Ne", target)
+    not_done = flow.edges_where(bi, ft, "Ne", target, bounded=delta > 0)
     for c in u.cps:
         edges = bi.outcome_edges(c.site, *labs)
         if not edges:
